@@ -51,6 +51,21 @@ CHECKS = {
          "Held on the full table of (.part state x first GET answer class) pairs (190) and agent misbehaviours (20) plus 160 (quick) / 3000 (thorough) seeded fault scripts, and 6 / 60 two-process histories (porcupine, nondeterministic write-once register, 60 s checker timeout => inconclusive).",
          "The ssh (git-lfs-transfer) adapter is not driven: no fake ssh peer was built (see DESIGN.md limits); tus is out of the property's scope. Success = delivered on the queue's Watch channel.",
          "DESIGN.md §5 C02"),
+ "C08": ("exploration",
+         "runtime monitor: inputs classified by construction (pointers beyond dispute / content beyond dispute) through one-shot filters fed by drain-aware chunked pipes, an independent filter-process client, and Git-level skip-smudge checkout + add/stash/commit; byte-equality, object-count and index-blob-id oracles",
+         "Held on 266 (quick) / ~4850 (thorough) seeded cases over 8 confirmed class-P spellings, pointer extensions up to and beyond 1024 bytes, all chunk plans incl. a first write ending exactly at / in the middle of the pointer text, packet sizes 1..65516, with and without a configured LFS extension, plus 8 Git-level scenarios.",
+         "Debatable inputs (pointer + trailing white space < 1024, unknown sorted keys) are exercised but not judged (they belong to C07). smudge --skip re-encoding non-canonical pointers is observed, not judged.",
+         "DESIGN.md §5 C08"),
+ "C09": ("fault_enumeration",
+         "runtime monitor: SIGKILL injected at every discovered (verif crash point, scenario-wide ordinal), at enumerated/sampled N-th write/rename/link/unlink/openat syscalls of git-lfs (strace inject) and at the first syscalls touching each known store path (strace -P); storage oracle + re-run convergence; write-discipline trace specification over strace logs of uninterrupted runs",
+         "Held on 5 (quick) / 9 (thorough) scenarios: ~160-240 delivered hook kills + ~100 syscall kills (quick), all discovered points up to 400 per scenario + 600 path-directed kills (thorough). After every kill every file under lfs/objects hashes to its name, leftovers are confined to tmp/incomplete/bad, the re-run exits like the uninterrupted run and ends in the golden object/bad sets.",
+         "SIGKILL only (no power loss). Between hooked points the strace sweep samples at syscall granularity (when=N counts per thread). For commands that write working-tree files an extra self-consistent object after the re-run (Git cleaning a truncated work file) is tolerated and counted.",
+         "DESIGN.md §5 C09"),
+ "C12": ("exploration",
+         "runtime monitor: migrate import/export on generated histories; oracle = structural commit correspondence + resolved-content/mode equality + representation-change selection check + ref/tag retargeting + Git's own check-attr, all over plain git plumbing and an independent pointer parser",
+         "Held on 36 (quick) / 240 (thorough) generated repositories over 12 migrate modes (include/exclude, --above, --everything, include-ref/exclude-ref, --fixup, --no-rewrite, export, export-after-import round trip) with merges incl. octopus, orphan branches, annotated/lightweight/nested tags, symlinks, executables, nested .gitattributes, raw commit encodings; 10 recorded known findings are reproduced and attributed by trigger.",
+         "Own matcher restricted to four unambiguous pattern forms; annotated-tag messages differing only in the final newline are counted, not judged, unless the tag was not selected; an --exclude pattern that un-tracks an existing LFS file is observed only.",
+         "DESIGN.md §5 C12"),
 }
 
 NOT_YET = {}
